@@ -14,6 +14,14 @@ CHECKS = {
               'reference evaluator written from the documentation; reach counters (injections, UNION ALL, un-memoized compiles) '
               'are mandatory. Held on the programs generated, not a proof.'),
         note='trusted: reference evaluator (DESIGN 4.21), SQLite 3.40; fragment excludes / %, floats, composite equality'),
+    'C02': dict(
+        category='exploration', design_ref='DESIGN.md 4/C02',
+        technique='runtime monitor: generated aggregation/negation programs on the real pipeline + SQLite vs an independent reference evaluator; deviation switches classify recorded findings',
+        text=('Every predicate of generated programs with predicate-level aggregation, correlated and nested aggregating expressions '
+              '(clashing local names), negation and implication is executed on SQLite through the real pipeline and compared with the '
+              'reference multiset (List as multiset, Set as set, ties as one-of). A mismatch is reported unless it is fully explained by '
+              'a deviation switch that corresponds to an open entry of known_findings.json.'),
+        note='trusted: reference evaluator (DESIGN 4.21); zero-key aggregation over no solution is not judged'),
     'C14': dict(
         category='exploration', design_ref='DESIGN.md 4/C14',
         technique='runtime trace monitor: start events recorded at the sql_runner boundary checked offline against a trace specification; icontract post-conditions on the scheduler state; stop-signal fault injection',
